@@ -232,7 +232,11 @@ func genMarkupDoc(r *RNG) markupDoc {
 			sb.WriteString(`<span itemprop="articleSection">` + m.tok("SOSEC") + `</span>`)
 		}
 		if r.Intn(4) == 0 {
-			sb.WriteString(`<div itemprop="associatedMedia" itemscope itemtype="http://schema.org/ImageObject"><meta itemprop="contentUrl" content="http://so.example/` + m.tok("am") + `.png"><meta itemprop="width" content="800"></div>`)
+			if r.Intn(3) == 0 {
+				sb.WriteString(`<div itemprop="associatedMedia" itemscope itemtype="http://schema.org/ImageObject"><meta itemprop="width" content="800"><span itemprop="caption">` + m.tok("SOAMC") + `</span></div>`)
+			} else {
+				sb.WriteString(`<div itemprop="associatedMedia" itemscope itemtype="http://schema.org/ImageObject"><meta itemprop="contentUrl" content="http://so.example/` + m.tok("am") + `.png"><meta itemprop="width" content="800"></div>`)
+			}
 		}
 		sb.WriteString(`</div>`)
 		m.add("so", false, sb.String())
@@ -241,7 +245,14 @@ func genMarkupDoc(r *RNG) markupDoc {
 			if r.Intn(3) == 0 {
 				rep = `<meta itemprop="representativeOfPage" content="true">`
 			}
-			m.add("so", false, `<div itemscope itemtype="http://schema.org/ImageObject"><meta itemprop="contentUrl" content="http://so.example/`+m.tok("io")+`.png"><span itemprop="caption">`+m.tok("SOCAP")+`</span>`+rep+`</div>`)
+			url := `<meta itemprop="contentUrl" content="http://so.example/` + m.tok("io") + `.png">`
+			switch r.Intn(8) {
+			case 0:
+				url = "" // an image object without any location
+			case 1:
+				url = `<meta itemprop="contentUrl" content=""><meta itemprop="url" content=" ">`
+			}
+			m.add("so", false, `<div itemscope itemtype="http://schema.org/ImageObject">`+url+`<span itemprop="caption">`+m.tok("SOCAP")+`</span>`+rep+`</div>`)
 		}
 		d.Sig += "so:" + typ + ","
 	}
